@@ -604,3 +604,5 @@ def _hookcount(ev, builder, name, i):
 SPECFUNCS['hookcount'] = _hookcount
 
 SPECFUNCS['isobject'] = lambda ev, v: VBool(T.Val.is_VR(to_val(v)))
+
+SPECFUNCS['isexpr'] = lambda ev, v: VBool(z3.Or(ev.eng.isinst(ev.st, v, 'UnaryExpr'), ev.eng.isinst(ev.st, v, 'BinaryExpr'), ev.eng.isinst(ev.st, v, 'NaryExpr')))
